@@ -86,6 +86,12 @@ class Spec:
         for pat in ("t0", "t1", "ALL", "SA"):
             out.append(["cgrem", pat])
         out.append(["cgaddq", "t0", self.graphs[-1]])
+        # bulk additions: a batch that names one quad twice, a batch over two graphs, and += of another graph
+        for g in self.graphs:
+            out.append(["addn", [["t0", g], ["t1", g], ["t0", g]]])
+        if len(self.graphs) > 1:
+            out.append(["addn", [["t0", self.graphs[0]], ["t0", self.graphs[1]], ["t1", self.graphs[0]], ["t0", self.graphs[0]]]])
+        out.append(["iadd", ["t0", "t1"], self.graphs[0]])
         if self.cgdef:
             out.append(["cgadd", "t0"])
             out.append(["cgadd", "t1"])
@@ -117,6 +123,18 @@ class Spec:
             elif k == "cgaddq":
                 S.cg.add(T(TRIPLES[op[1]]) + (T(op[2]),))
                 affected = {(op[1], op[2])}
+                S.content |= affected
+            elif k == "addn":
+                S.cg.addN([T(TRIPLES[t]) + (Graph(S.aud, T(g)),) for t, g in op[1]])
+                affected = {(t, g) for t, g in op[1]}
+                S.content |= affected
+            elif k == "iadd":
+                other = Graph()
+                for t in op[1]:
+                    other.add(T(TRIPLES[t]))
+                gg = Graph(S.aud, T(op[2]))
+                gg += other
+                affected = {(t, op[2]) for t in op[1]}
                 S.content |= affected
             elif k == "cgadd":
                 S.cg.add(T(TRIPLES[op[1]]))
@@ -167,6 +185,10 @@ class Spec:
         if op[0] in ("add", "cgaddq", "cgadd"):
             q = (op[1], op[2] if len(op) > 2 else "G3")
             return q in b
+        if op[0] == "addn":
+            return any(tuple(q) in b for q in op[1])
+        if op[0] == "iadd":
+            return any((t, op[2]) in b for t in op[1])
         return bool(b) and (before[0] != after[0])
 
 
